@@ -35,6 +35,7 @@ type SpecCfg struct {
 	Methods   []string
 	DefaultResponse bool
 	Text func(*rapid.T, string) string
+	ExtValue func(*rapid.T, string) any
 }
 
 var allMethods = []string{"get", "put", "post", "delete", "options", "head", "patch"}
@@ -69,8 +70,12 @@ func subset(t *rapid.T, label string, pool []string, min int) A {
 	return out
 }
 
-func ext(t *rapid.T, label string, into J, pct int) {
+func (c *SpecCfg) ext(t *rapid.T, label string, into J, pct int) {
 	if chance(t, label+"_hasext", pct) {
+		if c.ExtValue != nil {
+			into["x-"+PlainName(t, label+"_extk")] = c.ExtValue(t, label+"_extv")
+			return
+		}
 		into["x-"+PlainName(t, label+"_extk")] = rapid.SampledFrom([]any{"v", "w", 1, 2.5, true, A{"a", "b"}, J{"k": "v"}, J{"k": A{1, 2}}}).Draw(t, label+"_extv")
 	}
 }
@@ -83,18 +88,18 @@ func Spec(t *rapid.T, c *SpecCfg) J {
 		info["description"] = c.text(t, "infodesc_t")
 	}
 	if c.Extensions {
-		ext(t, "infoext", info, 15)
+		c.ext(t, "infoext", info, 15)
 		if chance(t, "contact", 20) {
 			ct := J{"name": c.text(t, "contact_name")}
-			ext(t, "contactext", ct, 40)
+			c.ext(t, "contactext", ct, 40)
 			info["contact"] = ct
 		}
 		if chance(t, "license", 20) {
 			lc := J{"name": "MIT"}
-			ext(t, "licenseext", lc, 40)
+			c.ext(t, "licenseext", lc, 40)
 			info["license"] = lc
 		}
-		ext(t, "rootext", doc, 15)
+		c.ext(t, "rootext", doc, 15)
 	}
 	doc["info"] = info
 	if c.Meta {
@@ -133,6 +138,9 @@ func Spec(t *rapid.T, c *SpecCfg) J {
 	so.Refs = defNames
 	if so.Text == nil {
 		so.Text = c.Text
+	}
+	if so.ExtValue == nil {
+		so.ExtValue = c.ExtValue
 	}
 	if nd > 0 {
 		defs := J{}
@@ -177,7 +185,7 @@ func Spec(t *rapid.T, c *SpecCfg) J {
 				tg["description"] = c.text(t, fmt.Sprintf("tag%d_desc_t", i))
 			}
 			if c.Extensions {
-				ext(t, fmt.Sprintf("tag%d_ext", i), tg, 30)
+				c.ext(t, fmt.Sprintf("tag%d_ext", i), tg, 30)
 			}
 			if chance(t, fmt.Sprintf("tag%d_declared", i), 70) {
 				tags = append(tags, tg)
@@ -208,7 +216,7 @@ func Spec(t *rapid.T, c *SpecCfg) J {
 				s = J{"type": "oauth2", "flow": "password", "tokenUrl": "https://example.com/token", "scopes": J{"read": "read things", "write": "write things"}}
 			}
 			if c.Extensions {
-				ext(t, fmt.Sprintf("sec%d_ext", i), s, 30)
+				c.ext(t, fmt.Sprintf("sec%d_ext", i), s, 30)
 			}
 			sd[name] = s
 			secNames = append(secNames, name)
@@ -272,7 +280,7 @@ func Spec(t *rapid.T, c *SpecCfg) J {
 			}
 		}
 		if c.Extensions {
-			ext(t, pl+"_ext", item, 10)
+			c.ext(t, pl+"_ext", item, 10)
 		}
 		nm := rapid.IntRange(1, 3).Draw(t, pl+"_nmeth")
 		usedM := map[string]bool{}
@@ -305,7 +313,7 @@ func Spec(t *rapid.T, c *SpecCfg) J {
 				op["tags"] = tg
 			}
 			if c.Extensions {
-				ext(t, ol+"_ext", op, 15)
+				c.ext(t, ol+"_ext", op, 15)
 			}
 			var params A
 			usedPN := map[string]bool{}
@@ -365,7 +373,7 @@ func Spec(t *rapid.T, c *SpecCfg) J {
 					b["required"] = true
 				}
 				if c.Extensions {
-					ext(t, ol+"_bodyext", b, 10)
+					c.ext(t, ol+"_bodyext", b, 10)
 				}
 				params = append(params, b)
 			}
@@ -403,7 +411,7 @@ func Spec(t *rapid.T, c *SpecCfg) J {
 				resps["default"] = response(t, ol+"_rdef", c, &so, true)
 			}
 			if c.Extensions {
-				ext(t, ol+"_respext", resps, 8)
+				c.ext(t, ol+"_respext", resps, 8)
 			}
 			op["responses"] = resps
 			if len(secNames) > 0 && chance(t, ol+"_opsec", 40) {
@@ -468,7 +476,7 @@ func response(t *rapid.T, label string, c *SpecCfg, so *Opts, allowSchema bool) 
 		r["headers"] = h
 	}
 	if c.Extensions {
-		ext(t, label+"_ext", r, 8)
+		c.ext(t, label+"_ext", r, 8)
 	}
 	return r
 }
